@@ -1,3 +1,375 @@
-/-! Model for property C13 (core Lean only; no Mathlib). -/
+/-! Model for property C13 (core Lean only; no Mathlib).
+
+Literal port of `pytreenet/ttno/symbolic_gaussian_elimination_fraction.py`.
+
+* A matrix entry of the Python code is `Fraction`, the integer `0` (written by the
+  `new_coeff == 0` normalisation) or a tuple `(Fraction, str)`.  Here: `Entry.num q` for both kinds of
+  numbers (the two kinds of zero are distinguished by the Python code only inside
+  `are_parallel_row/col`, which run on the *input* only, where zeros are `Fraction(0)`), and
+  `Entry.sym q s` for the tuple `(q, symbol s)`.  Symbols are natural numbers; **`0` stands for the
+  empty string `''`**, which `are_parallel_*` uses as the pseudo-symbol of a number.
+* Python truthiness / `== 0` (`0`, `Fraction(0)` falsy, every tuple truthy - also `(0,'a')`) is
+  `Entry.isZero`.
+* The operator matrices `Op_l`, `Op_r` are `List (List Rat)`.
+* Python mutates in place; the model is functional on the state `St = (L, A, R, flag)`.
+* An exception of the Python code that can be reached from well-shaped input is the
+  `ZeroDivisionError` of `-x / pivot[0]` for a pivot `(0, s)`; it is recorded in `flag`
+  (`Flag.zeroDiv`), never replaced by Lean's `x / 0 = 0`.  Running out of the fuel that replaces the
+  two `while` loops is recorded as `Flag.fuel`.
+-/
 namespace Ptn.C13
+
+inductive Entry where
+  | num (q : Rat)
+  | sym (q : Rat) (s : Nat)
+  deriving DecidableEq, Repr, Inhabited
+
+abbrev EMat := List (List Entry)
+abbrev RMat := List (List Rat)
+
+namespace Entry
+
+/-- Python `entry == 0` / `not entry`. -/
+def isZero : Entry → Bool
+  | num q => decide (q = 0)
+  | sym _ _ => false
+
+/-- `a_coeff` of `a_coeff, a_var = (a, '') if isinstance(a, Fraction) else a`. -/
+def coeff : Entry → Rat
+  | num q => q
+  | sym q _ => q
+
+/-- `a_var` of the same line; the symbol `0` is the empty string. -/
+def var : Entry → Nat
+  | num _ => 0
+  | sym _ s => s
+
+/-- Value of an entry under a valuation of the symbols (specification level). -/
+def eval (ρ : Nat → Rat) : Entry → Rat
+  | num q => q
+  | sym q s => q * ρ s
+
+end Entry
+
+/-! ### generic list-of-lists helpers -/
+
+/-- `X[i][j]` with a default (never used on well-shaped in-range accesses). -/
+def gM {α : Type} (d : α) (X : List (List α)) (i j : Nat) : α := (X.getD i []).getD j d
+
+/-- `len(matrix[0])`. -/
+def width {α : Type} (X : List (List α)) : Nat :=
+  match X with
+  | [] => 0
+  | r :: _ => r.length
+
+/-- `l[i], l[j] = l[j], l[i]`. -/
+def listSwap {α : Type} (l : List α) (i j : Nat) : List α :=
+  match l[i]?, l[j]? with
+  | some a, some b => (l.set i b).set j a
+  | _, _ => l
+
+/-- `_row_swap`. -/
+def rowSwapM {α : Type} (X : List (List α)) (i j : Nat) : List (List α) := listSwap X i j
+
+/-- `_col_swap`. -/
+def colSwapM {α : Type} (X : List (List α)) (i j : Nat) : List (List α) := X.map (listSwap · i j)
+
+/-- `del matrix[z]`. -/
+def delRow {α : Type} (X : List (List α)) (z : Nat) : List (List α) := X.eraseIdx z
+
+/-- `for row in matrix: del row[z]`. -/
+def delCol {α : Type} (X : List (List α)) (z : Nat) : List (List α) := X.map (·.eraseIdx z)
+
+/-- `sorted(zs, reverse=True)`. -/
+def sortDesc (zs : List Nat) : List Nat := zs.mergeSort (fun a b => decide (b ≤ a))
+
+/-! ### operations on the operator matrices -/
+
+/-- `_col_add_float(matrix, target_col, source_col, factor)`. -/
+def colAddFloat (X : RMat) (t s : Nat) (f : Rat) : RMat :=
+  X.map fun row => row.set t (row.getD t 0 + f * row.getD s 0)
+
+/-- `_row_add_float(matrix, target_row, source_row, factor)`. -/
+def rowAddFloat (X : RMat) (t s : Nat) (f : Rat) : RMat :=
+  X.set t (List.zipWith (fun a b => a + f * b) (X.getD t []) (X.getD s []))
+
+/-- `_row_scale` / `_col_scale` on an operator matrix. -/
+def rowScaleFloat (X : RMat) (r : Nat) (f : Rat) : RMat :=
+  X.set r ((X.getD r []).map (· * f))
+
+def colScaleFloat (X : RMat) (c : Nat) (f : Rat) : RMat :=
+  X.map fun row => row.set c (row.getD c 0 * f)
+
+def identity (n : Nat) : RMat :=
+  (List.range n).map fun i => (List.range n).map fun j => if i = j then (1 : Rat) else 0
+
+/-! ### `_row_add` / `_col_add` -/
+
+/-- One position of `_row_add` / `_col_add`: `none` is `return (False, False)`. -/
+def addEntry (f : Rat) (tgt src : Entry) : Option Entry :=
+  match src, tgt with
+  | .sym sc sv, .sym tc tv =>
+      if tv = sv then
+        let n := tc + f * sc
+        if n = 0 then some (.num 0) else some (.sym n sv)
+      else none
+  | .sym sc sv, .num t => if t = 0 then some (.sym (f * sc) sv) else none
+  | .num s, .num t => some (.num (t + f * s))
+  | .num s, .sym tc tv => if s ≠ 0 then none else some (.sym tc tv)
+
+/-- The loop of `_row_add` over the positions of the target row. -/
+def addLine (f : Rat) : List Entry → List Entry → Option (List Entry)
+  | t :: ts, s :: ss =>
+      match addEntry f t s, addLine f ts ss with
+      | some e, some es => some (e :: es)
+      | _, _ => none
+  | _, _ => some []
+
+/-- `_row_add(matrix, target_row, source_row, factor)`: `none` = not successful (matrix unchanged),
+    `some (matrix', is_zero)` otherwise. -/
+def rowAddRaw (A : EMat) (t s : Nat) (f : Rat) : Option (EMat × Bool) :=
+  match addLine f (A.getD t []) (A.getD s []) with
+  | none => none
+  | some r => some (A.set t r, r.all Entry.isZero)
+
+/-- The loop of `_col_add` over the rows: the new column. -/
+def addCol (f : Rat) (t s : Nat) : EMat → Option (List Entry)
+  | [] => some []
+  | row :: rest =>
+      match addEntry f (row.getD t (.num 0)) (row.getD s (.num 0)), addCol f t s rest with
+      | some e, some es => some (e :: es)
+      | _, _ => none
+
+/-- `_col_add(matrix, target_col, source_col, factor)`. -/
+def colAddRaw (A : EMat) (t s : Nat) (f : Rat) : Option (EMat × Bool) :=
+  match addCol f t s A with
+  | none => none
+  | some c => some (List.zipWith (fun row e => row.set t e) A c, c.all Entry.isZero)
+
+/-! ### scaling (present in the file, not used by `gaussian_elimination`) -/
+
+def scaleEntry (f : Rat) : Entry → Entry
+  | .num q => .num (q * f)
+  | .sym q s => .sym (q * f) s
+
+def rowScaleE (A : EMat) (r : Nat) (f : Rat) : EMat := A.set r ((A.getD r []).map (scaleEntry f))
+
+def colScaleE (A : EMat) (c : Nat) (f : Rat) : EMat :=
+  A.map fun row => row.set c (scaleEntry f (row.getD c (.num 0)))
+
+/-! ### `are_parallel_row` / `are_parallel_col` -/
+
+/-- Loop of `are_parallel_*` over the zipped pairs `(a, b)`; first argument is `ratio`. -/
+def parLoop : Rat → List (Entry × Entry) → Rat
+  | ratio, [] => ratio
+  | ratio, (a, b) :: rest =>
+      if a.var ≠ b.var then 0
+      else if a.coeff = 0 ∧ b.coeff = 0 then parLoop ratio rest
+      else if a.coeff = 0 ∨ b.coeff = 0 then 0
+      else
+        let cur := b.coeff / a.coeff
+        if ratio = 0 then parLoop cur rest
+        else if cur ≠ ratio then 0
+        else parLoop ratio rest
+
+def areParallelRow (r1 r2 : List Entry) : Rat := parLoop 0 (r1.zip r2)
+
+def areParallelCol (A : EMat) (c1 c2 : Nat) : Rat :=
+  parLoop 0 (A.map fun row => (row.getD c1 (.num 0), row.getD c2 (.num 0)))
+
+/-! ### state -/
+
+inductive Flag where
+  | ok | zeroDiv | fuel
+  deriving DecidableEq, Repr
+
+structure St where
+  L : RMat
+  A : EMat
+  R : RMat
+  flag : Flag
+
+/-- Record an abnormal event; the first one wins. -/
+def St.raise (s : St) (f : Flag) : St := if s.flag = .ok then { s with flag := f } else s
+
+/-- `row_swap`. -/
+def St.rowSwap (s : St) (i j : Nat) : St := { s with A := rowSwapM s.A i j, L := colSwapM s.L i j }
+
+/-- `col_swap`. -/
+def St.colSwap (s : St) (i j : Nat) : St := { s with A := colSwapM s.A i j, R := rowSwapM s.R i j }
+
+/-- `row_add` (the factor is always a `Fraction` here). -/
+def St.rowAdd (st : St) (t s : Nat) (f : Rat) : St × Bool :=
+  match rowAddRaw st.A t s f with
+  | none => (st, false)
+  | some (A', z) => ({ st with A := A', L := colAddFloat st.L s t (-f) }, z)
+
+/-- `col_add`. -/
+def St.colAdd (st : St) (t s : Nat) (f : Rat) : St × Bool :=
+  match colAddRaw st.A t s f with
+  | none => (st, false)
+  | some (A', z) => ({ st with A := A', R := rowAddFloat st.R s t (-f) }, z)
+
+/-- `row_scale`: `none` is the `ZeroDivisionError` of `1/factor`. -/
+def St.rowScale (st : St) (r : Nat) (f : Rat) : Option St :=
+  if f = 0 then none else some { st with A := rowScaleE st.A r f, L := colScaleFloat st.L r (1 / f) }
+
+/-- `col_scale`. -/
+def St.colScale (st : St) (c : Nat) (f : Rat) : Option St :=
+  if f = 0 then none else some { st with A := colScaleE st.A c f, R := rowScaleFloat st.R c (1 / f) }
+
+/-- `for row_0 in zs: del matrix[row_0]; for row in Op_l: del row[row_0]`. -/
+def St.delRows (s : St) (zs : List Nat) : St :=
+  zs.foldl (fun s z => { s with A := delRow s.A z, L := delCol s.L z }) s
+
+/-- `for col_0 in zs: (for row in matrix: del row[col_0]); del Op_r[col_0]`. -/
+def St.delCols (s : St) (zs : List Nat) : St :=
+  zs.foldl (fun s z => { s with A := delCol s.A z, R := delRow s.R z }) s
+
+/-! ### deparallelisation -/
+
+def deparRowsInner (A : EMat) (i : Nat) (acc : St × List Nat) (j : Nat) : St × List Nat :=
+  if j ∈ acc.2 then acc
+  else
+    let mult := areParallelRow (A.getD i []) (A.getD j [])
+    if mult ≠ 0 then ({ acc.1 with L := colAddFloat acc.1.L i j mult }, acc.2 ++ [j]) else acc
+
+def deparRowsOuter (A : EMat) (acc : St × List Nat) (i : Nat) : St × List Nat :=
+  if i ∈ acc.2 then acc
+  else (List.range' (i + 1) (A.length - (i + 1))).foldl (deparRowsInner A i) acc
+
+/-- `deparallelize_rows(Op_l, matrix)`. -/
+def deparallelizeRows (s : St) : St :=
+  let r := (List.range s.A.length).foldl (deparRowsOuter s.A) (s, [])
+  r.1.delRows (sortDesc r.2)
+
+def deparColsInner (A : EMat) (i : Nat) (acc : St × List Nat) (j : Nat) : St × List Nat :=
+  if j ∈ acc.2 then acc
+  else
+    let mult := areParallelCol A i j
+    if mult ≠ 0 then ({ acc.1 with R := rowAddFloat acc.1.R i j mult }, acc.2 ++ [j]) else acc
+
+def deparColsOuter (A : EMat) (acc : St × List Nat) (i : Nat) : St × List Nat :=
+  if i ∈ acc.2 then acc
+  else (List.range' (i + 1) (width A - (i + 1))).foldl (deparColsInner A i) acc
+
+/-- `deparallelize_cols(Op_r, matrix)`. -/
+def deparallelizeCols (s : St) : St :=
+  let r := (List.range (width s.A)).foldl (deparColsOuter s.A) (s, [])
+  r.1.delCols (sortDesc r.2)
+
+/-! ### elimination -/
+
+/-- The two branches computing the factor `-matrix[j][i] / pivot`; `none`: neither branch applies.
+    The Boolean says that the division raises `ZeroDivisionError`. -/
+def elimFactor (pivot e : Entry) : Option (Rat × Bool) :=
+  match pivot, e with
+  | .sym pc ps, .sym ec es => if ps = es then some ((-ec) / pc, decide (pc = 0)) else none
+  | .num pq, .num eq => some ((-eq) / pq, decide (pq = 0))
+  | _, _ => none
+
+/-- Body of `while j < len(matrix)` in `row_elimination` (pivot row/column `i`). -/
+def rowElimInner (i : Nat) (pivot : Entry) (acc : St × List Nat) (j : Nat) : St × List Nat :=
+  let e := gM (Entry.num 0) acc.1.A j i
+  if j ≠ i ∧ !e.isZero then
+    match elimFactor pivot e with
+    | none => acc
+    | some (f, zd) =>
+        let r := (if zd then acc.1.raise .zeroDiv else acc.1).rowAdd j i f
+        (r.1, if r.2 then acc.2 ++ [j] else acc.2)
+  else acc
+
+/-- The pivot search at the head of the body of `while i < min(...)`. -/
+def rowPivot (i : Nat) (s : St) : St :=
+  if (gM (Entry.num 0) s.A i i).isZero then
+    match (List.range' (i + 1) (s.A.length - (i + 1))).find?
+        (fun j => !(gM (Entry.num 0) s.A j i).isZero) with
+    | some j => s.rowSwap i j
+    | none => s
+  else s
+
+/-- One pass of the body of `while i < min(len(matrix), len(matrix[0]))` in `row_elimination`. -/
+def rowElimStep (i : Nat) (s : St) : St :=
+  let s1 := rowPivot i s
+  let pivot := gM (Entry.num 0) s1.A i i
+  if pivot.isZero then s1
+  else
+    let r := (List.range s1.A.length).foldl (rowElimInner i pivot) (s1, [])
+    r.1.delRows (sortDesc r.2)
+
+/-- `while i < min(len(matrix), len(matrix[0]))` with fuel. -/
+def rowElimLoop : Nat → Nat → St → St
+  | 0, i, s => if i < min s.A.length (width s.A) then s.raise .fuel else s
+  | fuel + 1, i, s =>
+      if i < min s.A.length (width s.A) then rowElimLoop fuel (i + 1) (rowElimStep i s) else s
+
+/-- `row_elimination(Op_l, matrix)`. -/
+def rowElimination (s : St) : St := rowElimLoop (min s.A.length (width s.A)) 0 s
+
+/-- Body of `while i < len(matrix[0])` in `column_elimination` (pivot row/column `j`). -/
+def colElimInner (j : Nat) (pivot : Entry) (acc : St × List Nat) (i : Nat) : St × List Nat :=
+  let e := gM (Entry.num 0) acc.1.A j i
+  if i ≠ j ∧ !e.isZero then
+    match elimFactor pivot e with
+    | none => acc
+    | some (f, zd) =>
+        let r := (if zd then acc.1.raise .zeroDiv else acc.1).colAdd i j f
+        (r.1, if r.2 then acc.2 ++ [i] else acc.2)
+  else acc
+
+def colPivot (j : Nat) (s : St) : St :=
+  if (gM (Entry.num 0) s.A j j).isZero then
+    match (List.range' (j + 1) (width s.A - (j + 1))).find?
+        (fun i => !(gM (Entry.num 0) s.A j i).isZero) with
+    | some i => s.colSwap j i
+    | none => s
+  else s
+
+def colElimStep (j : Nat) (s : St) : St :=
+  let s1 := colPivot j s
+  let pivot := gM (Entry.num 0) s1.A j j
+  if pivot.isZero then s1
+  else
+    let r := (List.range (width s1.A)).foldl (colElimInner j pivot) (s1, [])
+    r.1.delCols (sortDesc r.2)
+
+def colElimLoop : Nat → Nat → St → St
+  | 0, j, s => if j < min s.A.length (width s.A) then s.raise .fuel else s
+  | fuel + 1, j, s =>
+      if j < min s.A.length (width s.A) then colElimLoop fuel (j + 1) (colElimStep j s) else s
+
+/-- `column_elimination(Op_r, matrix)`. -/
+def columnElimination (s : St) : St := colElimLoop (min s.A.length (width s.A)) 0 s
+
+/-- `while (n_rows != n_rows_old or n_cols != n_cols_old)` with fuel. -/
+def mainLoop : Nat → Nat → Nat → Nat → Nat → St → St
+  | 0, nr, nro, nc, nco, s => if nr ≠ nro ∨ nc ≠ nco then s.raise .fuel else s
+  | fuel + 1, nr, nro, nc, nco, s =>
+      if nr ≠ nro ∨ nc ≠ nco then
+        let s2 := columnElimination (rowElimination s)
+        mainLoop fuel s2.A.length nr (width s2.A) nc s2
+      else s
+
+/-- State at the `return` of `gaussian_elimination(matrix)`. -/
+def gaussSt (M : EMat) : St :=
+  let nr := M.length
+  let nc := width M
+  let s0 : St := { L := identity nr, A := M, R := identity nc, flag := .ok }
+  let s1 := deparallelizeCols (deparallelizeRows s0)
+  mainLoop (nr + nc + 1) nr 0 nc 0 s1
+
+inductive Outcome where
+  | ok (L : RMat) (A : EMat) (R : RMat)
+  | zeroDiv
+  | fuelOut
+  deriving DecidableEq, Repr
+
+/-- `gaussian_elimination(matrix) -> (Op_l, matrix, Op_r)`. -/
+def gaussianElimination (M : EMat) : Outcome :=
+  let s := gaussSt M
+  match s.flag with
+  | .ok => .ok s.L s.A s.R
+  | .zeroDiv => .zeroDiv
+  | .fuel => .fuelOut
+
 end Ptn.C13
